@@ -112,7 +112,7 @@ CLAIMED = {
     'C11': dict(level='exploration', ref='DESIGN.md 6.5',
                 text='seeded seed tasks (factor-2 / sqrt2 / custom-resolution grids, non-square extents, ll/ul origin, level '
                      'subsets given as lists, ranges (open, zero-ended, beyond the grid) or resolutions, bbox / concave / multi-part / single-tile coverages and two coverages per seed entry in the grid SRS or EPSG:4326 (also a polygon plus a box in its notch), another seeding process holding the cache lock of one of two caches for a while, grids with near-coincident tile borders, one or two caches per seed entry, meta sizes, skip_geoms_for_last_levels, progress cadence, '
-                     'cache meta_buffer 0-200, per-hand-off simulated work time) run through the real seed()/TileWalker/SeedProgress/ProgressLog/ProgressStore '
+                     'cache meta_buffer 0-200, seed entries naming a second grid (another SRS) of their caches first, per-hand-off simulated work time) run through the real seed()/TileWalker/SeedProgress/ProgressLog/ProgressStore '
                      'with a recording pool at the hand-off; uninterrupted run compared with a brute-force shapely oracle over whole '
                      'levels (complete up to one pixel of the finest selected level, minimal up to a one-pixel band); then the same task with 1-3 seeded interruptions '
                      '(exception or hard kill at a hand-off, at a line event of the seeding code via sys.settrace, inside the '
